@@ -238,8 +238,8 @@ Definition exec_stmt (s : stmt) (d : db) : option db :=
 Inductive op :=
 | OExec (m : nat) (s : stmt)   (* one ExecContext; [m] names the statement in observations *)
 | OInspect (m : nat) (badopt : bool)
-                               (* the read of the state: r.ReadState / InspectRealm / InspectSchema /
-                                  DevLoader.inspect; [m] = the statement it follows (0: none);
+                               (* a read of the state: r.ReadState / InspectRealm / InspectSchema /
+                                  DevLoader.inspect / Pending's CheckClean; [m] = the statement it follows (0: none);
                                   [badopt]: its options carry a malformed exclude pattern *)
 | ORestore.                    (* LoadChanges: restore(ctx) before each checkpoint file *)
 Definition body := list op.
